@@ -831,6 +831,22 @@ class CSym(object):
     def e_CStyleCastExpr(self, n, env, tu):
         ty = n["type"]["qualType"]
         v = self.rvalue(n["inner"][0], env, tu)
+        if isinstance(v, Ptr) and ty.strip().endswith("*") and getattr(v.arr, "origin", "") == "malloc":
+            base = ty.strip()[:-1].strip().replace("const ", "")
+            sname = None
+            for t_ in self.tus:
+                b2 = t_.typedefs.get(base, base).replace("struct ", "")
+                if b2 in t_.structs:
+                    sname = b2
+                    fields = t_.structs[b2]
+                    break
+                if base.replace("struct ", "") in t_.structs:
+                    sname = base.replace("struct ", "")
+                    fields = t_.structs[sname]
+                    break
+            if sname is not None:
+                # (T *)malloc(sizeof(T)): a fresh struct object with uninitialised fields
+                return Struct(sname, {f: Undef(f) for f, _ in fields})
         if isinstance(v, Ptr) and "*" in ty:
             kind = "double" if "double" in ty else "int" if "int" in ty else v.arr.kind
             if v.arr.kind in ("raw", "void"):
